@@ -290,7 +290,7 @@ def run(repo, rep):
     from . import c07, c09
 
     rep.run_borrowed(c07, {"C07-f": "C08-k"}, repo)
-    rep.run_borrowed(c09, {"C09-b": "C08-k"}, repo)
+    rep.run_borrowed(c09, {"C09-b": "C08-k", "C09-a": "C08-k"}, repo)
 
     # ---------------------------------------------------------------- h: key components are computed from the quantities they name
     rep.clause("C08-h", "the block-depth component of the cache key is min(requested OFM block depth, OFM depth of the weights), with the OFM depth read from the same axis as the encoder's full_ofm_depth")
@@ -374,3 +374,29 @@ def run(repo, rep):
         own = [c for c in calls_in(ast.Module(body=sel[0].body, type_ignores=[]), "emit.cmd1_with_offset")]
         rep.check(len(own) == 1 and norm(own[0].args[1]) == f"{lst}[core].length", "C08-j", f"ethosu/vela/register_command_stream_generator.py:{fn_}", f"a core with a range gets {lst}[core].length", "")
     rep.floor("C08-j", 4)
+
+    # ---------------------------------------------------------------- l: staging DMA source, flash copies
+    rep.clause("C08-l", "the weight DMA of a depth slice starts at core 0's range (its length spans all cores); both the weight stream and a stand-alone scale stream of an operator are copied into the flash tensor")
+    hn_ = repo.mod("high_level_command_to_npu_op")
+    cd = hn_.func("create_dma_op")
+    from ..cfg import cfg_of as _cfg8
+
+    c8 = _cfg8(cd)
+    srcs = c8.nodes_where(lambda n_: n_.stmt is not None and n_.kind != "test" and isinstance(n_.stmt, ast.Assign) and str(norm(n_.stmt.targets[0])) == "src_addr" and "weight_range" in str(norm(n_.stmt.value)))
+    g0 = c8.nodes_where(lambda n_: n_.kind == "test" and str(norm(n_.expr)) in ("core == 0", "0 == core"))
+    if len(srcs) != 1:
+        raise AnalysisError("create_dma_op: source address of the weight DMA not found")
+    on_true = len(g0) == 1 and c8.dominates(g0[0], srcs[0]) and not any(b == srcs[0] or c8.path_avoiding(b, srcs[0], [g0[0]]) for b in c8.branch_succ(g0[0], False))
+    rep.check(on_true, "C08-l", "ethosu/vela/high_level_command_to_npu_op.py:create_dma_op", "src_addr of the weight DMA is taken from the range of core 0 (under `core == 0`)",
+              "taken outside the core-0 branch: after the per-core loop `weight_range` is the last core's range, so the buffer starts with core 1's stream")
+    ns_ = repo.mod("npu_serialisation")
+    sf = ns_.func("serialise_npu_subgraph_into_tensors")
+    copies = []
+    for node in ast.walk(sf):
+        if isinstance(node, ast.If) and any(isinstance(x, ast.Call) and call_name(x) == "copy_compressed_values_to_memory_tensor" for b in node.body for x in ast.walk(b)):
+            copies.append(node)
+    tests = {str(norm(n_.test)): n_ for n_ in copies}
+    ok = set(tests) == {"op_info.npu_weights_tensor", "op_info.npu_scales_tensor"} and not any(any(o is other for o in ast.walk(ast.Module(body=n_.orelse, type_ignores=[]))) for n_ in copies for other in copies if other is not n_)
+    rep.check(ok, "C08-l", "ethosu/vela/npu_serialisation.py:serialise_npu_subgraph_into_tensors", "weights and stand-alone scales are copied to flash under two independent tests",
+              f"tests {sorted(tests)}; one copy sits in the else-branch of the other: an operator that reuses cached weights with its own scales has its scale range left as zeros")
+    rep.floor("C08-l", 2)
